@@ -125,7 +125,8 @@ def render(stmts, lay: Layout = None) -> Rendered:
     pending = None  # (current line text) when joining with ';'
     i = 0
     ntok = 0
-    ccomment = (lay.fixed_comment_char + " layout comment") if lay.fixed else "! layout comment"
+    # the text of a comment is arbitrary: it may look like a statement and contain ;
+    ccomment = (lay.fixed_comment_char + " layout note; integer :: ghost_from_comment") if lay.fixed else "! layout note; integer :: ghost_from_comment"
     while i < len(stmts):
         st = stmts[i]
         for _ in range(lay.blank_above.get(i, 0)):
